@@ -162,7 +162,8 @@ class ExprGen:
         if k < 0.75:
             return r.choice(BOOLISH)
         if k < 0.85:
-            return r.choice(["0", "1", "7", "-3"]) if self.str_only else r.choice([0, 1, 7, -3, 12345678901234567890])
+            # 1.0 / 0.0 next to True / False / 1 / 0: equal under == and hash, different texts ("1.0", "true", "1")
+            return r.choice(["0", "1", "7", "-3"]) if self.str_only else r.choice([0, 1, 7, -3, 12345678901234567890, 1.0, 0.0, 1.5])
         if k < 0.92:
             return r.choice(["true", "False"]) if self.str_only else r.choice([True, False])
         return r.choice(["{{resolve:ssm:/p/a:1}}", "{{resolve:ssm:/p/zz:3}}", "{{resolve:ssm:bad}}", "x{{resolve:ssm:/p/a:1}}",
